@@ -72,13 +72,35 @@ static const std::vector<cld>& twtab(int n) {
     return g_tw;
 }
 
-// max |H_k| over the negative-frequency bins k = n/2+1 .. n-1, H = DFT of h; kmax receives the bin
-static ld negbins_max(const arr_cmplx& h, int& kmax) {
+static bool is_prime_i(int n) {
+    if (n < 2) return false;
+    for (long long d = 2; d * d <= n; ++d)
+        if (n % d == 0) return false;
+    return true;
+}
+
+// subset of the negative-frequency bins for lengths where the O(n^2) oracle over all of them is too slow: the three bins at
+// either end of the range n/2+1 .. n-1, the mirror images (and their neighbours) of the tone letters' bins, and B bins spread
+// evenly over the range.  Checking a subset demands less than the statement, never more.
+static std::vector<int> neg_subset(int n, int B) {
+    std::set<int> s;
+    const int lo = n / 2 + 1, hi = n - 1;
+    const int k1 = std::max(1, n / 5), k2 = std::max(1, (n - 1) / 2);
+    for (int k : {lo, lo + 1, lo + 2, hi, hi - 1, hi - 2, n - k1 - 1, n - k1, n - k1 + 1, n - k2 - 1, n - k2, n - k2 + 1})
+        if (k >= lo && k <= hi) s.insert(k);
+    for (int j = 0; j < B; ++j) s.insert(lo + (int)((long long)j * (hi - lo) / std::max(1, B - 1)));
+    return std::vector<int>(s.begin(), s.end());
+}
+
+// max |H_k| over the negative-frequency bins k = n/2+1 .. n-1 (or the given subset of them), H = DFT of h; kmax receives the bin
+static ld negbins_max(const arr_cmplx& h, int& kmax, const std::vector<int>* bins = nullptr) {
     const int n = h.size();
     const auto& tw = twtab(n);
     ld worst = 0;
     kmax = -1;
-    for (int k = n / 2 + 1; k < n; ++k) {
+    const int nb = bins ? (int)bins->size() : n - (n / 2 + 1);
+    for (int b = 0; b < nb; ++b) {
+        const int k = bins ? (*bins)[(size_t)b] : n / 2 + 1 + b;
         cld acc = 0;
         int idx = 0;
         for (int m = 0; m < n; ++m) {
@@ -116,7 +138,7 @@ static void fail_real(Ctx& ctx, bool dcnyq_only, const std::string& obs, const s
 }
 
 // the two defining oracles on h = hilbert(x)
-static void check_analytic(Ctx& ctx, const arr_real& x, const arr_cmplx& h, bool do_real, bool do_neg) {
+static void check_analytic(Ctx& ctx, const arr_real& x, const arr_cmplx& h, bool do_real, bool do_neg, const std::vector<int>* bins = nullptr) {
     const int n = x.size();
     if (h.size() != n) {
         ctx.fail("hilbert", fmt("result has %d elements", h.size()), fmt("%d", n), P().kv("kind", "size"));
@@ -161,7 +183,7 @@ static void check_analytic(Ctx& ctx, const arr_real& x, const arr_cmplx& h, bool
     }
     if (do_neg) {
         int kmax = -1;
-        const ld neg = negbins_max(h, kmax);
+        const ld neg = negbins_max(h, kmax, bins);
         const ld tolX = rel * sqrtl((ld)n) * nx;
         if (!(neg <= tolX)) {
             ctx.fail("hilbert", fmt("|DFT(hilbert(x))[%d]| = %.6Lg", kmax, neg),
@@ -180,91 +202,219 @@ static void check_analytic(Ctx& ctx, const arr_real& x, const arr_cmplx& h, bool
         ctx.fail(site, std::string("exception: ") + e.what(), "returns a value", P().kv("kind", "exception"));           \
     }
 
+static void npoint_case(Ctx& ctx, int n, int n2, int l, const std::vector<int>* bins) {
+    arr_real x = letter(n, l);
+    arr_real xp(n2);
+    for (int m = 0; m < n2; ++m) xp[m] = (m < n) ? x[m] : 0.0;
+    arr_cmplx h2 = hilbert(x, n2);
+    ctx.nontrivial();
+    ctx.note(n2 > n ? "npoint pad" : (n2 < n ? "npoint truncate" : "npoint same"));
+    if (h2.size() != n2) {
+        ctx.fail("hilbert(x,n)", fmt("result has %d elements", h2.size()), fmt("%d", n2), P().kv("kind", "size"));
+        return;
+    }
+    arr_cmplx h1 = hilbert(xp);
+    if (h1.size() != n2) {
+        ctx.fail("hilbert", fmt("result has %d elements", h1.size()), fmt("%d", n2), P().kv("kind", "size"));
+        return;
+    }
+    ld err = 0;
+    int at = 0;
+    for (int m = 0; m < n2; ++m) {
+        ld e = std::abs(cld(h2[m].re, h2[m].im) - cld(h1[m].re, h1[m].im));
+        if (!(e <= err)) err = e, at = m;
+    }
+    const ld tol = reltol(n2) * norm2(xp);
+    if (!(err <= tol))
+        ctx.fail("hilbert(x,n)", fmt("element %d differs from hilbert(padded x) by %.3Lg: %s", at, err, showc(h2).c_str()), showc(h1),
+                 P().kv("kind", "identity").kv("m", at));
+    else
+        ctx.worst("hilbert(x,n) vs hilbert(pad(x)) abs diff", (double)err);
+    check_analytic(ctx, xp, h2, true, true, bins);   // real part and negative bins of the n-point result
+}
+
 static void run_hilbert(Ctx& ctx, bool T) {
+    const int NFULL = T ? 4096 : 512;   // every n up to here: 7 letters, all negative bins
+    const int NEXT = T ? 8192 : 0;      // every n in (NFULL, NEXT]: real part for 7 letters, all negative bins for 3 letters
     std::vector<int> ns;
-    for (int n = 3; n <= (T ? 2048 : 512); ++n) ns.push_back(n);
+    for (int n = 3; n <= std::max(NFULL, NEXT); ++n) ns.push_back(n);
     for (int n : {1000, 1023, 1024, 4095, 4096})
         if (n > ns.back()) ns.push_back(n);
-    if (T) ns.push_back(6000);
-    const int NIMP = T ? 128 : 64;
+    const int NIMP = T ? 512 : 64;   // every impulse position up to here
+    // The three oracles are enumerated in separate sweeps over n (not interleaved per n): the negative-bin DFT costs O(n^2),
+    // and a fixed number of cases per n would hand every expensive case to the same shards.
     for (int n : ns) {
         for (int l = 0; l < NLET - 1; ++l) {   // "tag" is used by npoint only
-            for (int pass = 0; pass < 2; ++pass) {
-                const char* chk = pass ? "hilbert.negfreq" : "hilbert.real";
-                if (!ctx.take(chk, P().kv("n", n).kv("letter", LNAME[l]))) continue;
+            if (!ctx.take("hilbert.real", P().kv("n", n).kv("letter", LNAME[l]))) continue;
+            GUARD_BEGIN
+            arr_real x = letter(n, l);
+            arr_cmplx h = hilbert(x);
+            if (nonzeros(x) >= 2) ctx.nontrivial();
+            ctx.note(std::string("hilbert n ") + (n % 2 ? "odd" : "even"));
+            if (l == 0 && is_prime_i(n)) ctx.note(n > 64 ? "hilbert prime n > 64" : "hilbert prime n <= 64");
+            check_analytic(ctx, x, h, true, false);
+            GUARD_END("hilbert")
+        }
+    }
+    for (int n : ns) {
+        for (int l = 0; l < NLET - 1; ++l) {
+            if (n > NFULL && n <= NEXT && l != L_ALT && l != L_TOFF && l != L_LCG) continue;   // data-independent: same in every shard
+            if (!ctx.take("hilbert.negfreq", P().kv("n", n).kv("letter", LNAME[l]))) continue;
+            GUARD_BEGIN
+            arr_real x = letter(n, l);
+            arr_cmplx h = hilbert(x);
+            if (nonzeros(x) >= 2) ctx.nontrivial();
+            check_analytic(ctx, x, h, false, true);
+            GUARD_END("hilbert")
+        }
+    }
+    // impulses: every position for n <= NIMP; above that (thorough) positions 1 and n-1 for every n <= NFULL and additionally
+    // 0 and n/2 for every prime n
+    for (int n : ns) {
+        std::vector<int> pos;
+        if (n <= NIMP) {
+            for (int p = 0; p < n; ++p) pos.push_back(p);
+        } else if (T && n <= NFULL) {
+            pos = {1, n - 1};
+            if (is_prime_i(n)) {
+                pos.push_back(0);
+                pos.push_back(n / 2);
+            }
+        }
+        for (int p : pos) {
+            if (!ctx.take("hilbert.impulse", P().kv("n", n).kv("pos", p))) continue;
+            GUARD_BEGIN
+            arr_real x(n);
+            for (int m = 0; m < n; ++m) x[m] = 0;
+            x[p] = 1;
+            arr_cmplx h = hilbert(x);
+            check_analytic(ctx, x, h, true, true);
+            GUARD_END("hilbert")
+        }
+    }
+    // big lengths (retained scratch buffers, 16-bit counters, padded prime transforms): real part in full, negative bins on a
+    // subset (3 at either end, mirrors of the tone bins, 256 / 1024 spread evenly)
+    {
+        std::vector<int> big = {4097, 65536, 65537, 100000};
+        if (T) big = {4097, 8191, 8192, 16384, 32768, 65521, 65535, 65536, 65537, 100000, 131071, 131072};
+        for (int n : big) {
+            for (int l : {(int)L_ALT, (int)L_TOFF, (int)L_TDC, (int)L_LCG}) {
+                if (!ctx.take("hilbert.big", P().kv("n", n).kv("letter", LNAME[l]))) continue;
                 GUARD_BEGIN
                 arr_real x = letter(n, l);
                 arr_cmplx h = hilbert(x);
-                if (nonzeros(x) >= 2) ctx.nontrivial();
-                ctx.note(std::string("hilbert n ") + (n % 2 ? "odd" : "even"));
-                // separate check ids (and record stores) for the two defining oracles
-                check_analytic(ctx, x, h, pass == 0, pass == 1);
+                ctx.nontrivial();
+                ctx.note(fmt("hilbert big n=%d%s", n, is_prime_i(n) ? " (prime)" : ""));
+                const std::vector<int> bins = neg_subset(n, T ? 1024 : 256);
+                check_analytic(ctx, x, h, true, true, &bins);
                 GUARD_END("hilbert")
             }
         }
-        if (n <= NIMP) {
-            for (int p = 0; p < n; ++p) {
-                if (!ctx.take("hilbert.impulse", P().kv("n", n).kv("pos", p))) continue;
-                GUARD_BEGIN
-                arr_real x(n);
-                for (int m = 0; m < n; ++m) x[m] = 0;
-                x[p] = 1;
-                arr_cmplx h = hilbert(x);
-                check_analytic(ctx, x, h, true, true);
-                GUARD_END("hilbert")
-            }
+        // n-point form across the 65536 boundary: truncation 100000 -> 65536 / 65537, padding 4097 -> 65537, 65536 -> 100000
+        const int pairs[][2] = {{100000, 65536}, {100000, 65537}, {4097, 65537}, {65536, 100000}};
+        for (auto& pr : pairs) {
+            if (!ctx.take("hilbert.npoint", P().kv("n", pr[0]).kv("n2", pr[1]).kv("letter", LNAME[L_LCG]))) continue;
+            GUARD_BEGIN
+            const std::vector<int> bins = neg_subset(pr[1], 64);
+            npoint_case(ctx, pr[0], pr[1], L_LCG, &bins);
+            GUARD_END("hilbert(x,n)")
         }
     }
-    // n-point form
-    for (int n = 3; n <= 32; ++n) {
-        for (int n2 = 3; n2 <= 2 * n; ++n2) {
+    // n-point form: full grid for small n, around-the-length / half / double / prime targets for larger n
+    const int NP = T ? 160 : 32;
+    for (int n = 3; n <= NP; ++n) {
+        for (int n2 = 3; n2 <= 2 * n + (T ? 1 : 0); ++n2) {
             for (int l : {(int)L_LCG, (int)L_TAG}) {
                 if (!ctx.take("hilbert.npoint", P().kv("n", n).kv("n2", n2).kv("letter", LNAME[l]))) continue;
                 GUARD_BEGIN
-                arr_real x = letter(n, l);
-                arr_real xp(n2);
-                for (int m = 0; m < n2; ++m) xp[m] = (m < n) ? x[m] : 0.0;
-                arr_cmplx h2 = hilbert(x, n2);
-                ctx.nontrivial();
-                ctx.note(n2 > n ? "npoint pad" : (n2 < n ? "npoint truncate" : "npoint same"));
-                if (h2.size() != n2) {
-                    ctx.fail("hilbert(x,n)", fmt("result has %d elements", h2.size()), fmt("%d", n2), P().kv("kind", "size"));
-                    continue;
-                }
-                arr_cmplx h1 = hilbert(xp);
-                if (h1.size() != n2) {
-                    ctx.fail("hilbert", fmt("result has %d elements", h1.size()), fmt("%d", n2), P().kv("kind", "size"));
-                    continue;
-                }
-                ld err = 0;
-                int at = 0;
-                for (int m = 0; m < n2; ++m) {
-                    ld e = std::abs(cld(h2[m].re, h2[m].im) - cld(h1[m].re, h1[m].im));
-                    if (!(e <= err)) err = e, at = m;
-                }
-                const ld tol = reltol(n2) * norm2(xp);
-                if (!(err <= tol))
-                    ctx.fail("hilbert(x,n)", fmt("element %d differs from hilbert(padded x) by %.3Lg: %s", at, err, showc(h2).c_str()),
-                             showc(h1), P().kv("kind", "identity").kv("m", at));
-                else
-                    ctx.worst("hilbert(x,n) vs hilbert(pad(x)) abs diff", (double)err);
-                check_analytic(ctx, xp, h2, false, true);   // negative bins of the n-point result
+                npoint_case(ctx, n, n2, l, nullptr);
                 GUARD_END("hilbert(x,n)")
+            }
+        }
+    }
+    if (T) {
+        for (int n : {255, 256, 257, 509, 512, 1021, 1024, 2048}) {
+            std::set<int> tg;
+            for (int d = -3; d <= 3; ++d) tg.insert(n + d);
+            for (int v : {n / 2, n / 2 + 1, 2 * n - 1, 2 * n, 2 * n + 1, 67, 127, 4093, 4096, 4099}) tg.insert(v);
+            for (int n2 : tg) {
+                for (int l : {(int)L_LCG, (int)L_TAG}) {
+                    if (!ctx.take("hilbert.npoint", P().kv("n", n).kv("n2", n2).kv("letter", LNAME[l]))) continue;
+                    GUARD_BEGIN
+                    npoint_case(ctx, n, n2, l, nullptr);
+                    GUARD_END("hilbert(x,n)")
+                }
             }
         }
     }
 }
 
 // ---------------------------------------------------------------------------------------------- HilbertFilter
+// one tone of L samples through a fresh HilbertFilter(flen, tw), frames taken cyclically from `pat` (empty: one call)
+static void hf_stream(Ctx& ctx, int flen, double tw, int M, int D, double f, double A, ld phi, int L, const std::vector<int>& pat) {
+    arr_real x(L);
+    for (int k = 0; k < L; ++k) x[k] = (double)(A * cosl(2 * PI_L * (ld)f * k + phi));
+    HilbertFilter flt(flen, tw);
+    arr_cmplx y(L);
+    bool sized = true;
+    if (pat.empty()) {
+        arr_cmplx r = flt.process(x);
+        if (r.size() != L) sized = false;
+        else y = r;
+    } else {
+        int pos = 0;
+        size_t j = 0;
+        while (pos < L && sized) {
+            int fl = std::min(std::max(1, pat[j++ % pat.size()]), L - pos);
+            arr_real fr(fl);
+            for (int i = 0; i < fl; ++i) fr[i] = x[pos + i];
+            arr_cmplx r = flt.process(fr);
+            if (r.size() != fl) {
+                sized = false;
+                break;
+            }
+            for (int i = 0; i < fl; ++i) y[pos + i] = r[i];
+            pos += fl;
+        }
+    }
+    ctx.nontrivial();
+    if (!sized) {
+        ctx.fail("HilbertFilter.process", "output frame size differs from input frame size", "same size", P().kv("kind", "size"));
+        return;
+    }
+    // real part: input delayed by D, bit-exact
+    int badk = -1;
+    for (int k = 0; k < L && badk < 0; ++k) {
+        double want = (k < D) ? 0.0 : x[k - D];
+        if (!(y[k].re == want)) badk = k;   // value equality (a delay line copies samples)
+    }
+    if (badk >= 0)
+        ctx.fail("HilbertFilter.process", fmt("real part[%d]=%.17g", badk, y[badk].re), fmt("x[%d-%d]=%.17g", badk, D, badk < D ? 0.0 : x[badk - D]),
+                 P().kv("kind", "delay").kv("k", badk));
+    // imaginary part: 90 degree shifted tone after the FIR is filled
+    ld worst = 0;
+    int wk = -1;
+    for (int k = M - 1; k < L; ++k) {
+        ld want = A * sinl(2 * PI_L * (ld)f * (k - D) + phi);
+        ld e = fabsl((ld)y[k].im - want);
+        if (!(e <= worst)) worst = e, wk = k;
+    }
+    if (!(worst <= 1e-3L * A))
+        ctx.fail("HilbertFilter.process", fmt("imag[%d] off by %.3Lg (A=%g, f=%.6f, M=%d)", wk, worst, A, f, M),
+                 "within 1e-3*A of A*sin(2 pi f (k-D) + phi)", P().kv("kind", "quadrature").kv("k", wk).kv("f", f));
+    else
+        ctx.worst("hfilter: process imag err / (1e-3 A)", (double)(worst / (1e-3L * A)));
+}
+
 static void run_hfilter(Ctx& ctx, bool T) {
     std::vector<int> flens = {31, 32, 51, 101, 200, 201, 401};
     std::vector<double> tws = {0.005, 0.01, 0.05, 0.1};
     if (T) {
         flens.clear();
         for (int m = 31; m <= 401; ++m) flens.push_back(m);
-        tws = {0.005, 0.01, 0.02, 0.05, 0.1};
+        tws = {0.005, 0.0075, 0.01, 0.015, 0.02, 0.03, 0.05, 0.075, 0.1};
     }
-    const int frames[] = {1, 7, 64, 3, 200, 2};
+    const long long GRID = T ? 4000 : 2000;   // response grid step 0.5 / GRID: 0.0005 (quick, the DESIGN's), 0.000125 (thorough)
     for (int flen : flens) {
         for (double tw : tws) {
             // design once per (flen, tw) where needed
@@ -298,12 +448,14 @@ static void run_hfilter(Ctx& ctx, bool T) {
                     ld worst = 0;
                     double fw = 0;
                     long long pts = 0;
-                    for (long long g = 0; g <= 1000; ++g) {
-                        const double f = (double)g * 0.0005;
+                    for (long long g = 0; g <= GRID; ++g) {
+                        const double f = (double)g * 0.5 / (double)GRID;
                         if (f < lo || f > hi) continue;
                         ++pts;
+                        // H(f) = sum h[m] z^m, z = e^{-j 2 pi f}: Horner in long double
+                        const cld z = cis(-2 * PI_L * (ld)f);
                         cld H = 0;
-                        for (int m = 0; m < M; ++m) H += (ld)hz[m] * cis(-2 * PI_L * (ld)f * m);
+                        for (int m = M - 1; m >= 0; --m) H = H * z + (ld)hz[m];
                         cld want = cld(0, -1) * cis(-2 * PI_L * (ld)f * D);
                         ld e = std::abs(H - want);
                         if (!(e <= worst)) worst = e, fw = f;
@@ -311,7 +463,7 @@ static void run_hfilter(Ctx& ctx, bool T) {
                     ctx.note("hfilter response grid points", pts);
                     if (pts == 0) ctx.note("hfilter EMPTY pass-band");
                     if (!(worst <= 1e-3L))
-                        ctx.fail("HilbertFilter.impz", fmt("|H(f) - (-j)e^{-j2pi f D}| = %.3Lg at f=%.4f (M=%d)", worst, fw, M), "<= 1e-3",
+                        ctx.fail("HilbertFilter.impz", fmt("|H(f) - (-j)e^{-j2pi f D}| = %.3Lg at f=%.6f (M=%d)", worst, fw, M), "<= 1e-3",
                                  P().kv("kind", "response").kv("f", fw));
                     else
                         ctx.worst("hfilter: |H(f)-ideal| / 1e-3", (double)(worst / 1e-3L));
@@ -319,7 +471,7 @@ static void run_hfilter(Ctx& ctx, bool T) {
                 GUARD_END("HilbertFilter.ctor")
             }
             for (int fi = 0; fi < 16; ++fi) {
-                for (int framing = 0; framing < 2; ++framing) {
+                for (int framing = 0; framing < (T ? 3 : 2); ++framing) {
                     if (!ctx.take("hfilter.process", P().kv("flen", flen).kv("tw", tw).kv("fi", fi).kv("framing", framing))) continue;
                     GUARD_BEGIN
                     if (!build()) {
@@ -331,60 +483,81 @@ static void run_hfilter(Ctx& ctx, bool T) {
                     const double A = (fi % 2) ? 250.0 : 1.0;
                     const ld phi = 0.2L + 0.37L * fi;
                     const int L = 3 * M + 64;
-                    arr_real x(L);
-                    for (int k = 0; k < L; ++k) x[k] = (double)(A * cosl(2 * PI_L * (ld)f * k + phi));
-                    HilbertFilter flt(flen, tw);
-                    arr_cmplx y(L);
-                    bool sized = true;
-                    if (framing == 0) {
-                        arr_cmplx r = flt.process(x);
-                        if (r.size() != L) sized = false;
-                        else y = r;
-                    } else {
-                        int pos = 0, j = 0;
-                        while (pos < L && sized) {
-                            int fl = std::min(frames[j++ % 6], L - pos);
-                            arr_real fr(fl);
-                            for (int i = 0; i < fl; ++i) fr[i] = x[pos + i];
-                            arr_cmplx r = flt.process(fr);
-                            if (r.size() != fl) {
-                                sized = false;
-                                break;
-                            }
-                            for (int i = 0; i < fl; ++i) y[pos + i] = r[i];
-                            pos += fl;
-                        }
-                    }
-                    ctx.nontrivial();
-                    if (!sized) {
-                        ctx.fail("HilbertFilter.process", "output frame size differs from input frame size", "same size",
-                                 P().kv("kind", "size"));
-                        continue;
-                    }
-                    // real part: input delayed by D, bit-exact
-                    int badk = -1;
-                    for (int k = 0; k < L && badk < 0; ++k) {
-                        double want = (k < D) ? 0.0 : x[k - D];
-                        if (!(y[k].re == want)) badk = k;   // value equality (a delay line copies samples)
-                    }
-                    if (badk >= 0)
-                        ctx.fail("HilbertFilter.process", fmt("real part[%d]=%.17g", badk, y[badk].re),
-                                 fmt("x[%d-%d]=%.17g", badk, D, badk < D ? 0.0 : x[badk - D]), P().kv("kind", "delay").kv("k", badk));
-                    // imaginary part: 90 degree shifted tone after the FIR is filled
-                    ld worst = 0;
-                    int wk = -1;
-                    for (int k = M - 1; k < L; ++k) {
-                        ld want = A * sinl(2 * PI_L * (ld)f * (k - D) + phi);
-                        ld e = fabsl((ld)y[k].im - want);
-                        if (!(e <= worst)) worst = e, wk = k;
-                    }
-                    if (!(worst <= 1e-3L * A))
-                        ctx.fail("HilbertFilter.process", fmt("imag[%d] off by %.3Lg (A=%g, f=%.6f, M=%d)", wk, worst, A, f, M),
-                                 "within 1e-3*A of A*sin(2 pi f (k-D) + phi)", P().kv("kind", "quadrature").kv("k", wk).kv("f", f));
-                    else
-                        ctx.worst("hfilter: process imag err / (1e-3 A)", (double)(worst / (1e-3L * A)));
+                    static const std::vector<int> none, cyc = {1, 7, 64, 3, 200, 2};
+                    const std::vector<int> mm = {M, 1, M - 1, M + 1};
+                    hf_stream(ctx, flen, tw, M, D, f, A, phi, L, framing == 0 ? none : (framing == 1 ? cyc : mm));
                     GUARD_END("HilbertFilter.process")
                 }
+            }
+        }
+    }
+    // long streams: 140 000 samples (indices, ring positions and sample counters cross 65 536) in one call and in frames of 1000
+    {
+        const int flenL[] = {101, 400};
+        for (int flen : flenL) {
+            for (int framing = 0; framing < 3; ++framing) {
+                if (!ctx.take("hfilter.stream", P().kv("flen", flen).kv("tw", 0.01).kv("len", 140000).kv("framing", framing))) continue;
+                GUARD_BEGIN
+                HilbertFilter probe(flen, 0.01);
+                const int M = probe.impz().size();
+                if (M != flen && M != flen + 1) {
+                    ctx.fail("HilbertFilter.impz", fmt("filter length %d", M), fmt("%d or %d", flen, flen + 1), P().kv("kind", "length"));
+                    continue;
+                }
+                static const std::vector<int> none, k1000 = {1000}, mixed = {65536, 1, 999, 70000};
+                ctx.note("hfilter long stream (140000 samples)");
+                hf_stream(ctx, flen, 0.01, M, M / 2, 0.1234, 1.0, 0.4L, 140000, framing == 0 ? none : (framing == 1 ? k1000 : mixed));
+                GUARD_END("HilbertFilter.process")
+            }
+        }
+    }
+}
+
+// ---------------------------------------------------------------------------------------------- Delay (the mechanism behind the
+// real part of HilbertFilter): out[k] = x[k - D] (0 for k < D), bit-exact, for any framing
+template<class E>
+static void delay_case(Ctx& ctx, int D, int L, const std::vector<int>& pat) {
+    base_array<E> x(L);
+    for (int k = 0; k < L; ++k) {
+        if constexpr (std::is_same_v<E, cmplx_t>) x[k] = cmplx_t{(double)(k + 1), -(double)(k + 1) - 0.5};
+        else x[k] = (double)(k + 1);
+    }
+    Delay<E> dl(D);
+    ctx.nontrivial();
+    int pos = 0;
+    size_t j = 0;
+    long long bad = -1;
+    while (pos < L && bad < 0) {
+        int fl = pat.empty() ? L : std::min(std::max(1, pat[j++ % pat.size()]), L - pos);
+        base_array<E> fr(fl);
+        for (int i = 0; i < fl; ++i) fr[i] = x[pos + i];
+        base_array<E> r = dl.process(fr);
+        if (r.size() != fl) {
+            ctx.fail("Delay.process", fmt("output has %d samples for a frame of %d", r.size(), fl), "same size", P().kv("kind", "size"));
+            return;
+        }
+        for (int i = 0; i < fl && bad < 0; ++i) {
+            const int k = pos + i;
+            const E want = (k < D) ? E{} : x[k - D];
+            if (std::memcmp(&r[i], &want, sizeof(E)) != 0) bad = k;
+        }
+        pos += fl;
+    }
+    if (bad >= 0) ctx.fail("Delay.process", fmt("sample %lld differs", bad), fmt("x[%lld - %d] (tag %lld), 0 before", bad, D, bad - D + 1), P().kv("kind", "value").kv("k", bad));
+}
+
+static void run_delay(Ctx& ctx, bool T) {
+    std::vector<int> Ds = {1, 50, 65535, 65536, 70000};
+    if (T) Ds = {1, 2, 3, 50, 999, 1000, 1001, 4095, 4096, 4097, 65535, 65536, 65537, 70000};
+    const std::vector<std::vector<int>> pats = {{}, {1000}, {1, 7, 64, 3, 200, 2, 65536, 5}, {70001, 1, 69999}};
+    for (int D : Ds) {
+        for (int cplx = 0; cplx < 2; ++cplx) {
+            for (int framing = 0; framing < (T ? 4 : 2); ++framing) {
+                if (!ctx.take("delay.stream", P().kv("D", D).kv("type", cplx ? "cmplx" : "real").kv("len", 140000).kv("framing", framing))) continue;
+                GUARD_BEGIN
+                if (cplx) delay_case<cmplx_t>(ctx, D, 140000, pats[(size_t)framing]);
+                else delay_case<real_t>(ctx, D, 140000, pats[(size_t)framing]);
+                GUARD_END("Delay.process")
             }
         }
     }
@@ -423,7 +596,7 @@ static ld tuner_angle(const FExact& fe, long long k, int fs) {
 
 static void run_tuner(Ctx& ctx, bool T) {
     std::vector<int> fss = {8, 9, 100, 8000, 100000};
-    if (T) fss = {8, 9, 10, 11, 100, 101, 8000, 44100, 48000, 100000};
+    if (T) fss = {8, 9, 10, 11, 12, 13, 14, 15, 16, 17, 18, 19, 20, 25, 31, 32, 33, 63, 64, 65, 100, 101, 127, 128, 255, 256, 257, 999, 1000, 1001, 4095, 4096, 8000, 11025, 22050, 32000, 44100, 48000, 65535, 65536, 65537, 88200, 96000, 100000};
     for (int fs : fss) {
         std::vector<double> fl;
         auto add = [&](double f) {
@@ -432,27 +605,31 @@ static void run_tuner(Ctx& ctx, bool T) {
                 if (g == f) return;
             fl.push_back(f);
         };
-        const double cand[] = {0, 1, fs / 4.0, fs / 2.0, 0.5, 1.25, 2.5, (fs - 1) / 2.0, 440.3, fs / 2.0 - 0.1, 1.0 / 3.0, fs / 3.0, 0.001, 3.0, fs / 2.0 - 1.0};
+        std::vector<double> cand = {0, 1, fs / 4.0, fs / 2.0, 0.5, 1.25, 2.5, (fs - 1) / 2.0, 440.3, fs / 2.0 - 0.1, 1.0 / 3.0, fs / 3.0, 0.001, 3.0, fs / 2.0 - 1.0};
+        if (T)
+            for (double c : {fs / 5.0, fs / 7.0, 0.1, fs / 2.0 - 0.001, fs / 2.0 - 1.0 / 3.0, 2.0 / 3.0, 7.75, fs / 6.0 + 0.25, 1000.0625}) cand.push_back(c);
         for (double c : cand) {
             add(c);
             add(-c);
         }
-        const long long N03 = (fs <= 101 || T) ? (long long)std::ceil(3.5 * fs) : (long long)(2.5 * fs);
+        const long long N03 = T ? (long long)std::ceil(5.5 * fs) : (fs <= 101 ? (long long)std::ceil(3.5 * fs) : (long long)(2.5 * fs));
         // framings 0..2: one call / short frames / frames of exactly fs samples.  Framings 3..6: frames longer than fs and
         // longer than 2 fs (several counter wraps inside ONE call) followed by further frames, stream of 9 fs + 17 > 8 fs
         // samples - the state carried from one call to the next must account for every wrap made inside a call.
+        // Framings 7, 8: 140 000 samples in frames of 1000 and in one call (sample counter / phase index crossing 65 536).
         const long long F = fs;
+        const long long NBIG = 140000;
         const std::vector<std::vector<long long>> patterns = {
-            {N03}, {1, 2, 3, 5, 7, 11, 64, 1000}, {F}, {2 * F + 3, 1, F - 1, 3 * F + 1, 5}, {F + 1}, {3 * F}, {1, 4 * F + 2, 7}};
+            {N03}, {1, 2, 3, 5, 7, 11, 64, 1000}, {F}, {2 * F + 3, 1, F - 1, 3 * F + 1, 5}, {F + 1}, {3 * F}, {1, 4 * F + 2, 7}, {1000}, {NBIG}};
         for (double f : fl) {
             const bool fint = (f == std::floor(f));
             for (int framing = 0; framing < (int)patterns.size(); ++framing) {
-                const long long N = framing < 3 ? N03 : 9 * F + 17;
+                const long long N = framing < 3 ? N03 : (framing < 7 ? 9 * F + 17 : NBIG);
                 const std::vector<long long>& pat = patterns[framing];
                 if (!ctx.take("tuner.phase", P().kv("fs", fs).kv("f", f).kv("fint", fint).kv("framing", framing))) continue;
                 GUARD_BEGIN
                 ctx.note(fint ? "tuner integer f" : "tuner fractional f");
-                ctx.note(framing < 3 ? "tuner framing: frames <= fs or single call" : "tuner framing: frames > fs / > 2 fs followed by more frames");
+                ctx.note(framing < 3 ? "tuner framing: frames <= fs or single call" : (framing < 7 ? "tuner framing: frames > fs / > 2 fs followed by more frames" : "tuner framing: 140000 samples (frames of 1000 / one call)"));
                 if (f != 0) ctx.nontrivial();
                 FExact fe = fexact(f);
                 if (fe.s > 100) {   // cannot happen for the candidate list (|f| >= 1e-3)
@@ -520,6 +697,7 @@ int main(int argc, char** argv) {
     const bool T = ctx.thorough();
     run_hilbert(ctx, T);
     run_hfilter(ctx, T);
+    run_delay(ctx, T);
     run_tuner(ctx, T);
     return ctx.finish();
 }
